@@ -656,8 +656,10 @@ static void wt_one(const std::vector<uint> &sy, const std::string &impl, int id)
   std::vector<uint> copy = sy;
   Sequence *s = nullptr;
   Mapper *am = new MapperNone();
-  BitSequenceBuilder *bsb = new BitSequenceBuilderRG(4);
-  if (impl == "WT") {
+  // bitmaps inside the tree: RG(4) for "WT" / "WTNoptrs", RRR(16) for the "-RRR" variants (as XBW and FMINDEX use them)
+  const bool rrr = impl.size() > 4 && impl.substr(impl.size() - 4) == "-RRR";
+  BitSequenceBuilder *bsb = rrr ? (BitSequenceBuilder *)new BitSequenceBuilderRRR(16) : (BitSequenceBuilder *)new BitSequenceBuilderRG(4);
+  if (impl == "WT" || impl == "WT-RRR") {
     wt_coder *wc = new wt_coder_huff(copy.data(), n, am);
     s = new WaveletTree(copy.data(), n, wc, bsb, am, false);
   } else
@@ -701,10 +703,11 @@ static void wt_one(const std::vector<uint> &sy, const std::string &impl, int id)
     fprintf(out, "{\"e\":\"SeqLoadNull\",\"id\":%d}\n", id);
 }
 static void do_wt() {
-  for (std::string impl : {"WT", "WTNoptrs"}) {
+  for (std::string impl : {"WT", "WTNoptrs", "WT-RRR", "WTNoptrs-RRR"}) {
+    const bool variant = impl.find("-RRR") != std::string::npos;
     section("wt-" + impl + "-exhaustive", [&] {
       int id = 0;
-      int maxn = thorough ? 6 : 5;
+      int maxn = thorough ? 6 : (variant ? 4 : 5);
       for (int n = 1; n <= maxn; n++) {
         long total = 1;
         for (int i = 0; i < n; i++) total *= 3;
@@ -712,7 +715,7 @@ static void do_wt() {
           std::vector<uint> sy(n);
           long x = m;
           for (int i = 0; i < n; i++) {
-            sy[i] = (impl == "WT" ? 0 : 1) + x % 3;      // the pointer-based tree (Huffman shaped) also gets symbol 0
+            sy[i] = (impl.substr(0, 3) == "WT-" || impl == "WT" ? 0 : 1) + x % 3;      // the pointer-based tree (Huffman shaped) also gets symbol 0
             x /= 3;
           }
           wt_one(sy, impl, id++);
@@ -725,7 +728,7 @@ static void do_wt() {
         size_t n = 1 + rng() % 300;
         uint sigma = 1 + rng() % (t % 2 ? 200 : 6);
         std::vector<uint> sy(n);
-        const uint lo = (impl == "WT" && (t % 3) != 2) ? 0 : 1;
+        const uint lo = ((impl == "WT" || impl == "WT-RRR") && (t % 3) != 2) ? 0 : 1;
         for (auto &c : sy) c = lo + rng() % sigma;
         if (lo == 0 && n > 3) sy[0] = sy[n / 2] = 0;     // symbol 0 present and not the rarest
         wt_one(sy, impl, id++);
